@@ -179,4 +179,27 @@ REGISTRY = {
         'explanation': 'node protocol contracts discharged by z3 + AST obligations; serialisation and hostile grammar bounded',
         'not_decided': ['remote execution exactly once with result return (two-party protocol)', 'JSON round trip beyond the bounded grammar'],
     },
+    'C15': {
+        'modules': ['contracts.http_server'], 'level': 'proof',
+        'level_text': 'Framing case analysis over symbolic bodies: prepare() sets Content-Length to the byte length of a sized body, '
+                      'otherwise chunked xor close, Connection header agreeing; _on_response writes status line + headers then the exact '
+                      'body (hex framing and one terminator when chunked), nothing for HEAD/1xx/204/304, closes iff announced and '
+                      'releases the client entry; _on_stream frames non-empty chunks and terminates once.',
+        'level_note': 'trusted/opaque: header formatting (Headers.__bytes__, status line) as uninterpreted functions, hex(), str.encode, '
+                      'the lemma sum of part lengths = length of concatenation; an independent decoder is expressed as the framing '
+                      'equations, not run.',
+        'explanation': 'response framing contracts discharged by z3/cvc5',
+        'not_decided': ['header formatting strings', 'keep-alive sequences of several requests (per-request contracts + C14 clean-up)'],
+    },
+    'C14': {
+        'modules': ['contracts.http_server'], 'level': 'proof',
+        'level_text': 'PARTIAL: per read and for every parser outcome the HTTP component fires nothing, one close, one httperror, one '
+                      'redirect or one request (never error and request together); rejected messages, TLS hellos and disconnects '
+                      'release the per-connection tables; only declared conversion errors can reach the dispatcher. Universality over '
+                      'the byte language of the parser is bounded (see C13).',
+        'level_note': 'parser by its contract (C13); wrappers.Request/Response constructors as summaries; exception -> one 500 response '
+                      'through C04 + _on_exception is argued, not mechanised end to end.',
+        'explanation': 'per-call outcome and clean-up contracts discharged by z3',
+        'not_decided': ['which byte strings the grammar functions reject (bounded, C13)', 'syntactic validity of the error response (C15 framing)'],
+    },
 }
